@@ -4,6 +4,7 @@ CONSTANTS
   Fixed = TRUE
   AllowForeignClose = TRUE
   AllowCancel = TRUE
+  AllowStall = FALSE
 VIEW View
 INVARIANT PacketBoundary
 INVARIANT NoStaleOutput
